@@ -1,0 +1,88 @@
+//go:build verif
+
+package cluster
+
+// Verification seam (build tag verif): lets a simulated backend stand in for
+// the olric engine below the record primitives of *cluster, so that the real
+// key namespaces, encoders, claim logic and membership event machinery run
+// against a single-copy registry owned by a deterministic simulator. With the
+// tag off none of this is compiled and x.sim is always nil.
+
+import (
+	"context"
+	"errors"
+	"time"
+
+	"github.com/redis/go-redis/v9"
+	"github.com/tochemey/olric"
+
+	"github.com/tochemey/goakt/v4/discovery"
+)
+
+// SimBackend replaces olric (distributed map, membership, pub/sub) in simulated runs.
+type SimBackend interface {
+	Join(node *discovery.Node) <-chan *redis.Message
+	Leave(node *discovery.Node)
+	Put(ctx context.Context, node, key string, value []byte, nx bool, ttl time.Duration) error
+	Get(ctx context.Context, node, key string) ([]byte, error)
+	Delete(ctx context.Context, node, key string) error
+	Keys(ctx context.Context, node string) ([]string, error)
+	Incr(ctx context.Context, node, key string, delta int) (int, error)
+	Members(ctx context.Context, node string) ([]olric.Member, error)
+}
+
+type simBackend = SimBackend
+
+// SimBackendFor, when set, is consulted by (*cluster).bootstrap.
+var SimBackendFor func(node *discovery.Node) SimBackend
+
+func simBackendFor(node *discovery.Node) simBackend {
+	if SimBackendFor == nil {
+		return nil
+	}
+	return SimBackendFor(node)
+}
+
+// SimClaimTTL is the TTL applied to NX puts that carry an expiry option (the
+// only such caller is ClaimScheduleFire).
+var SimClaimTTL = time.Minute
+
+func simTTL(options []olric.PutOption) time.Duration {
+	if len(options) == 0 {
+		return 0
+	}
+	return SimClaimTTL
+}
+
+func (x *cluster) simMembers(ctx context.Context) ([]olric.Member, error) {
+	if x.sim != nil {
+		return x.sim.Members(ctx, x.node.PeersAddress())
+	}
+	return x.client.Members(ctx)
+}
+
+func simScan[T any](ctx context.Context, x *cluster, namespace recordNamespace, rrName string, decodeRecord func([]byte) (T, error), visit func(T)) error {
+	keys, err := x.sim.Keys(ctx, x.node.PeersAddress())
+	if err != nil {
+		return err
+	}
+	rrKey := composeKey(namespace, rrName)
+	for _, key := range keys {
+		if !hasNamespace(key, namespace) || key == rrKey {
+			continue
+		}
+		value, err := x.sim.Get(ctx, x.node.PeersAddress(), key)
+		if err != nil {
+			if errors.Is(err, olric.ErrKeyNotFound) {
+				continue
+			}
+			return err
+		}
+		record, err := decodeRecord(value)
+		if err != nil {
+			return err
+		}
+		visit(record)
+	}
+	return nil
+}
